@@ -833,8 +833,11 @@ class Evolution(pg.DNAGenerator):
         self._global_state.num_generations = generation_id
 
     # Recover the state of the population initializer.
+    # NOTE: `recover` may be called several times (multiple sources of history),
+    # so the condition is the one `_feedback` checks on the live path: the total
+    # number of feedbacks received so far, not those of the current call.
     if (self._init_population_size is not None
-        and len(init_population) >= self._init_population_size):
+        and self.num_feedbacks >= self._init_population_size):
       self._population_initialized = True
       if self.num_generations == 0:
         self._global_state.num_generations = 1
